@@ -2,7 +2,6 @@ package keysim
 
 import (
 	"bufio"
-	"io"
 	"encoding/json"
 	"fmt"
 	"os"
@@ -88,6 +87,18 @@ func Worker(prop, tier string, seed uint64, w, nw int, deadline int64, from int)
 
 // replayOnce runs the given episodes in a fresh process and returns the
 // violations of the last one.
+// ReplayFresh re-executes episodes in a fresh process (used by `./check replay`).
+func ReplayFresh(self string, eps []*Episode) ([]core.Violation, error) {
+	return replayOnce(self, eps, 6*time.Hour)
+}
+
+const deadlockText = "all goroutines are asleep - deadlock!"
+
+// replayOnce runs the given episodes in a fresh process and returns the
+// violations of the last one. A library call that blocks forever in this
+// single-goroutine process is reported by the Go runtime itself ("all
+// goroutines are asleep - deadlock!"): deterministic, not a timeout. It is
+// turned into violations here, attributed from the operation trace.
 func replayOnce(self string, eps []*Episode, timeout time.Duration) ([]core.Violation, error) {
 	f, err := os.CreateTemp("", "keysim-replay-*.json")
 	if err != nil {
@@ -97,8 +108,13 @@ func replayOnce(self string, eps []*Episode, timeout time.Duration) ([]core.Viol
 	json.NewEncoder(f).Encode(&ReplayFile{Episodes: eps})
 	f.Close()
 	cmd := exec.Command(self, "replay-raw", f.Name())
-	cmd.Stderr = os.Stderr
+	var errb strings.Builder
+	cmd.Stderr = &errb
+	cmd.Env = append(os.Environ(), "KEYSIM_TRACE=1")
 	outp, err := runWithTimeout(cmd, timeout)
+	if strings.Contains(errb.String(), deadlockText) {
+		return deadlockViolations(eps[len(eps)-1], errb.String()), nil
+	}
 	if err != nil {
 		return nil, err
 	}
@@ -107,6 +123,85 @@ func replayOnce(self string, eps []*Episode, timeout time.Duration) ([]core.Viol
 		return nil, fmt.Errorf("replay output: %v", err)
 	}
 	return res.Violations, nil
+}
+
+// deadlockViolations attributes a call that never returned. C02's automaton
+// has every operation return (emit or refuse), so it is always a C02
+// deviation; it is C01's too when the blocked call is a valid Sign/SetIndex of a
+// history without refused calls (C01 quantifies over those histories only).
+func deadlockViolations(ep *Episode, stderr string) []core.Violation {
+	k := -1
+	for _, l := range strings.Split(stderr, "\n") {
+		if strings.HasPrefix(l, "KEYSIM-TRACE op=") {
+			if n, err := strconv.Atoi(strings.TrimPrefix(l, "KEYSIM-TRACE op=")); err == nil {
+				k = n
+			}
+		}
+	}
+	where := fmt.Sprintf("op%d", k)
+	if ep.Kind != "xmss" || k < 0 {
+		return []core.Violation{{Property: "C09", Oracle: "operation-never-returns", Where: where, Detail: "a library call blocked forever (Go runtime: " + deadlockText + ")", Signature: "operation-never-returns:" + ep.Kind}}
+	}
+	refusedBefore, valid, kind := modelScan(ep, k)
+	det := fmt.Sprintf("%s at op %d never returned (Go runtime: %s); refused call earlier in the history: %v", kind, k, deadlockText, refusedBefore)
+	vs := []core.Violation{{Property: "C02", Oracle: "operation-never-returns", Where: where, Detail: det, Signature: fmt.Sprintf("operation-never-returns:%s,after-refusal=%v", kind, refusedBefore)}}
+	if valid && !refusedBefore {
+		vs = append(vs, core.Violation{Property: "C01", Oracle: "operation-never-returns", Where: where, Detail: det, Signature: "operation-never-returns:" + kind})
+	}
+	return vs
+}
+
+// modelScan follows the counter automaton over ops[0..k) and tells whether a
+// refused operation occurred before op k, whether op k itself is valid, and its kind.
+func modelScan(ep *Episode, k int) (refusedBefore, valid bool, kind string) {
+	leaves := uint32(1) << ep.Height
+	idx := uint32(0)
+	step := func(op *Op) bool { // returns validity, advances the model
+		switch op.K {
+		case "sign":
+			if idx < leaves {
+				idx++
+				return true
+			}
+			return false
+		case "jump":
+			if op.J >= idx && op.J < leaves {
+				idx = op.J
+				return true
+			}
+			return false
+		case "walk":
+			ok := true
+			for s := uint32(0); s < op.N; s++ {
+				if idx < leaves-1 || (op.Via != "unit" && idx < leaves) {
+					idx++
+				} else {
+					ok = false
+				}
+			}
+			return ok
+		case "crash":
+			if len(op.Plan) > 0 {
+				idx = op.Plan[len(op.Plan)-1]
+			} else {
+				idx = uint32(op.Signs)
+			}
+			return true
+		}
+		return true
+	}
+	for i := 0; i < k && i < len(ep.Ops); i++ {
+		if !step(&ep.Ops[i]) {
+			refusedBefore = true
+		}
+	}
+	if k < len(ep.Ops) {
+		kind = ep.Ops[k].K
+		valid = step(&ep.Ops[k])
+	} else {
+		kind, valid = "drain", true
+	}
+	return
 }
 
 func runWithTimeout(cmd *exec.Cmd, timeout time.Duration) ([]byte, error) {
@@ -306,6 +401,7 @@ type agg struct {
 	byProfile  core.Counter
 	cpuMs      core.Counter
 	lost       []string // episodes whose worker died or timed out
+	deadlocks  int      // episodes in which a library call blocked forever
 }
 type found struct {
 	e int
@@ -336,7 +432,8 @@ func Check(c CheckConfig) int {
 			from := 0
 			for restarts := 0; ; restarts++ {
 				cmd := exec.Command(c.Self, "worker", c.Prop, c.Tier, strconv.FormatUint(c.Seed, 10), strconv.Itoa(w), strconv.Itoa(c.Workers), strconv.FormatInt(deadline, 10), strconv.Itoa(from))
-				cmd.Stderr = io.Discard
+				var errb strings.Builder
+				cmd.Stderr = &errb
 				cmd.Env = append(os.Environ(), "GOMAXPROCS=2")
 				stdout, err := cmd.StdoutPipe()
 				if err != nil || cmd.Start() != nil {
@@ -397,8 +494,34 @@ func Check(c CheckConfig) int {
 				if done {
 					return
 				}
-				if cur < 0 || restarts > 20 {
-					failed[w] = fmt.Errorf("worker %d ended abnormally outside an episode (err=%v)", w, err)
+				if cur >= 0 && strings.Contains(errb.String(), deadlockText) {
+					// a library call blocked forever: confirmed and attributed in a fresh process
+					vs, rerr := replayOnce(c.Self, []*Episode{b.At(cur)}, 10*time.Minute)
+					mu.Lock()
+					if rerr != nil || len(vs) == 0 {
+						a.lost = append(a.lost, fmt.Sprintf("episode %d (worker %d): deadlock not reproduced in a fresh process (%v)", cur, w, rerr))
+					}
+					a.evals++
+					for _, v := range vs {
+						if v.Property == c.Prop {
+							a.viol = append(a.viol, found{cur, v})
+						} else {
+							a.others.Add(v.Property+"/"+v.Oracle, 1)
+						}
+					}
+					a.deadlocks++
+					mu.Unlock()
+					if restarts >= 60 {
+						mu.Lock()
+						a.lost = append(a.lost, fmt.Sprintf("worker %d: more than 60 episodes blocked forever; the rest of its share was not run", w))
+						mu.Unlock()
+						return
+					}
+					from = cur + 1
+					continue
+				}
+				if cur < 0 || restarts > 80 {
+					failed[w] = fmt.Errorf("worker %d ended abnormally (last episode %d, err=%v, %d restarts): %s", w, cur, err, restarts, lastLines(errb.String(), 3))
 					return
 				}
 				mu.Lock()
@@ -521,6 +644,7 @@ func Check(c CheckConfig) int {
 		"other_property_oracle_failures":  a.others,
 		"episodes_skipped_by_budget":      a.skipped,
 		"episodes_lost_to_crash_or_timeout": a.lost,
+		"episodes_with_a_call_that_never_returned": a.deadlocks,
 		"unconfirmed_in_fresh_process":    unconfirmed,
 		"workers":                         c.Workers,
 		"tree_hash":                       c.TreeHash,
@@ -568,6 +692,14 @@ func Check(c CheckConfig) int {
 		return 2
 	}
 	return 0
+}
+
+func lastLines(s string, n int) string {
+	ls := strings.Split(strings.TrimSpace(s), "\n")
+	if len(ls) > n {
+		ls = ls[len(ls)-n:]
+	}
+	return strings.Join(ls, " | ")
 }
 
 func envOr(k, d string) string {
